@@ -18,7 +18,11 @@ limit the *analysis* recursion (term substitution, fixpoint rounds), never a run
       that attribute in the package, all call sites of a parameter) + 4 (abstract domain of value kinds
       {proxy, None, not-a-proxy, unknown}, joined over paths/writes) + 5 (`getattr`/`setattr` names: case analysis over the
       string literals, keyword names and constant tuples the analysed code itself passes) + 2 (`falls_off_end` on the CFG)
-      + 6 (constant folding of a literal tuple a `for` iterates over).
+      + 6 (constant folding of a literal tuple a `for` iterates over).  An entry read from a keyed table that an attribute
+      of the configuration holds (`self.t[k]`, `self.t.get(k)`, `.setdefault`, also through a local bound to the table) is
+      resolved like a slot: the union over every item store / setdefault into that table in a method of the class (1, 3),
+      the table being bound to a new empty mapping wherever the attribute is bound.  `return x` behind a branch edge that
+      dominates it (2) and establishes `x is not None` / x truthy for the same reaching definitions of x drops None.
 * R3  (who may bind BeaconConfig attributes): 1 (who-may-write over every store/delete/setattr/`__dict__` form in the
       package, receiver typing) + 3 (freshness of the receiver through reaching definitions, returns of package callees and
       the bindings at every call site) + the value-kind domain of R2 (4) for cache fills.
@@ -45,6 +49,21 @@ limit the *analysis* recursion (term substitution, fixpoint rounds), never a run
       value-kind domain of R2): a cache slot of an existing configuration that receives a proxy is not bound again by a
       later statement on the same CFG path.  No exception model is needed: the condition is about the order of the
       publication and the completion, whatever may fail in between.
+* R8  (a cache hit is determined by the inputs of the cached value): 1 (the caches are located by role: a method of the
+      configuration class that stores into configuration state after construction - an item of a table held by an
+      attribute, `setdefault`, or an attribute slot - and has a `return` whose value may come from the same table / slot;
+      receiver typing; baseline vocabulary and call sites for helpers the normaliser left in place) + 3 (backward slice of
+      the stored value, of the store key and of the look-up key over reaching definitions: copies, paired tuple targets,
+      loop / with targets, augmented assignments, in-place modifications - item stores, mutator calls - of the object a
+      local names that reach the use on the CFG; a loop body is looked at once; the result is a set of *parameter names*,
+      no term is evaluated) + 2 (control dependence: tests of the branch edges that dominate a defining statement, iterable
+      of an enclosing `for`; the conditions that dominate the look-up / its return / the store, compared as (text, outcome,
+      reaching definitions of their names)) + 5/6 (a parameter of a non-baseline helper that every call site binds to one
+      and the same constant is not an input).  Violated: a parameter in the slice of the stored value occurs neither in
+      both keys nor in any condition on the way to the look-up.  Conditions on it that differ between look-up and store,
+      a fill whose key cannot be located (`update(..)`), a table filled in one method and read in another: undecided.
+      "Takes part in the key" is deliberately weak (the parameter is in the slice of the key): whether the key *determines*
+      the parameter is not decided, so no algebraic fact about the key expression is needed.
 """
 
 from __future__ import annotations
@@ -413,7 +432,46 @@ class _ConfigObjects:
             return {_UNK: f"`{src(e)[:40]}`"}
         if isinstance(e, ast.Call):
             return self._call_kinds(f, e, env, depth)
+        if isinstance(e, ast.Subscript) and not isinstance(e.slice, ast.Slice):
+            tabs = _tables_of(self.ctx, self, f, e.value)
+            if tabs:  # an entry of a table held by an attribute of the instance
+                out = {}
+                for a in sorted(tabs):
+                    self._merge(out, self.entries(a, depth + 1))
+                return out
         return {_UNK: f"`{src(e)[:40]}`"}
+
+    def entries(self, attr: str, depth: int = 0) -> Dict[str, str]:
+        """What an entry of the table held by `self.<attr>` may be: the union over every item store / setdefault into that
+        table in a method of the class; the table itself must start empty wherever the attribute is bound."""
+        key = ("table", attr)
+        if key in self._active:
+            return {}
+        self._active.add(key)
+        try:
+            out: Dict[str, str] = {}
+            for w in self.writes():
+                ns = self.write_names(w)
+                if w.how == "delete" or (ns is not None and attr not in ns):
+                    continue
+                v = strip_cast(w.value) if w.value is not None else None
+                empty = (isinstance(v, ast.Dict) and not v.keys) or (isinstance(v, ast.Call) and not v.args and not v.keywords and dotted(v.func) in _MUT_CTORS)
+                if not empty:
+                    self._merge(out, {_UNK: f"the table {attr!r} is bound to `{src(w.node)[:40]}` in {w.f.qualname}, not to a new empty mapping"})
+            for g in self.ctx.repo.methods(self.cls_fq):
+                if self._inlined_away(g):
+                    continue
+                for s in _cache_accesses(self.ctx, self, g, hits=False)[0]:
+                    if s.form != "item" or s.attr != attr:
+                        continue
+                    if s.key is None:
+                        self._merge(out, {_UNK: f"`{src(s.node)[:40]}` in {g.qualname} fills the table {attr!r}"})
+                    else:
+                        k = self.kinds(g, s.value, {}, depth + 1)
+                        self._merge(out, {a: (b if a in (_P, _N) else f"{b} stored in the table {attr!r} by {g.qualname}") for a, b in k.items()})
+            return out
+        finally:
+            self._active.discard(key)
 
     def _name_kinds(self, f, e: ast.Name, env: Env, depth: int) -> Dict[str, str]:
         rd = reaching_defs(self.ctx, f, e.id, e)
@@ -461,6 +519,14 @@ class _ConfigObjects:
             return out
         if cal.kind == "func" and cal.func is not None:
             return self.returns(cal.func, self.bind(f, e, cal.func, env), depth + 1)
+        if isinstance(e.func, ast.Attribute) and e.func.attr in _LOOKUP_METHODS and 1 <= len(e.args) <= 2 and not e.keywords:
+            tabs = _tables_of(self.ctx, self, f, e.func.value)
+            if tabs:  # table.get(k[, default]) / table.setdefault(k[, value]) on a table held by an attribute of the instance
+                out = {}
+                for a in sorted(tabs):
+                    self._merge(out, self.entries(a, depth + 1))
+                self._merge(out, self.kinds(f, e.args[1], env, depth + 1) if len(e.args) == 2 else {_N: f"`{src(e)[:40]}` without a default"})
+                return out
         if d in _MUT_CTORS or d in _COPY_CALLS or (isinstance(e.func, ast.Attribute) and e.func.attr == "copy" and not e.args):
             return {_BAD: f"`{src(e)[:40]}` builds a new mutable object"}
         return {_UNK: f"`{src(e)[:40]}`"}
@@ -475,12 +541,32 @@ class _ConfigObjects:
                 return {_UNK: f"{g.qualname} is a generator"}
             out: Dict[str, str] = {}
             for r in returns_of(g):
-                self._merge(out, self.kinds(g, r.value, env or {}, depth + 1))
+                ks = self.kinds(g, r.value, env or {}, depth + 1)
+                if _N in ks and self._not_none_here(g, r):
+                    ks = {a: b for a, b in ks.items() if a != _N}
+                self._merge(out, ks)
             if self.ctx.cfg(g).falls_off_end():
                 self._merge(out, {_N: f"{g.qualname} can end without a return"})
             return out
         finally:
             self._active.discard(key)
+
+    def _not_none_here(self, g, r: ast.Return) -> bool:
+        """`return x` behind a branch edge that establishes `x is not None` / x truthy for the same binding of local x."""
+        from csverif.q import dominating_conditions
+
+        x = strip_cast(r.value) if r.value is not None else None
+        if not isinstance(x, ast.Name):
+            return False
+        fv = FuncView.of(g.node)
+        here = {id(st) for st, _v in reaching_defs(self.ctx, g, x.id, x)}
+        for text, pol, test in dominating_conditions(self.ctx, g, r):
+            if (text, pol) not in ((f"{x.id} is not None", True), (f"{x.id} is None", False), (x.id, True)) or id(test) not in fv.parent:
+                continue
+            probe = next((n for n in ast.walk(test) if isinstance(n, ast.Name) and n.id == x.id), None)
+            if probe is not None and {id(st) for st, _v in reaching_defs(self.ctx, g, x.id, probe)} == here:
+                return True
+        return False
 
     def slot(self, attr: str, depth: int = 0) -> Dict[str, str]:
         """What `self.<attr>` of an instance may hold: the union over every write of that attribute in the package."""
@@ -587,13 +673,21 @@ def run(ctx):
         "not modify the state of their HttpDataTransform. A view is published complete (R7): no modification of the mapping "
         "behind a view's proxy is reachable on the CFG from the statement that hands the proxy out (slot store, return, "
         "argument), and a slot that received a proxy is not bound a second time on the same path - so a failure while a view "
-        "is being computed cannot leave a half-built or provisional view cached."
+        "is being computed cannot leave a half-built or provisional view cached. A cache hit is determined by the inputs of "
+        "the cached value (R8): where a method keeps a result in the configuration (keyed table or slot) and answers later "
+        "calls from there, every parameter in the backward slice (def-use + control dependence) of the stored value takes "
+        "part in the key of the store and of the look-up, or the look-up is conditioned on it like the store - otherwise "
+        "the result of a view access depends on which views were read before."
     )
     rep.not_decided = ["result equality of every operation before/after (follows from R1-R4 for the step-list channel)", "other channels such as RNG state",
                        "R7: a reference to the wrapped mapping that is retained by a callee or a container before the publication (only "
                        "local names, configuration attributes and modifying package callees are followed)",
-                       "which statements can actually raise (R7 demands the publish-last order regardless)"]
-    rep.trusted_base = ["CPython ast", "mutator / fresh-copy tables in csverif/alias.py", "call resolution by construction/annotation"]
+                       "which statements can actually raise (R7 demands the publish-last order regardless)",
+                       "R8: whether a cache key determines (rather than merely involves) each input of the cached value; whether equal "
+                       "conditions on a non-boolean input at look-up and store pin its value; caches addressed through computed "
+                       "attribute names (getattr/setattr helpers: judged by R5) or filled and read in different functions"]
+    rep.trusted_base = ["CPython ast", "mutator / fresh-copy tables in csverif/alias.py", "call resolution by construction/annotation",
+                        "baseline vocabulary csverif/baseline_names.json (R8: which functions are public entry points)"]
     rep.assumptions = ["objects handed to external libraries are not mutated by them", "tuples/bytes/str/int elements are immutable"]
     al = _FlowAlias(ctx, make_source(ctx)).run()
     # count the reads of the store we analysed
@@ -643,6 +737,7 @@ def run(ctx):
         ctx.rep.error(f"imported rule C02.R3 failed: {type(e).__name__}: {e}")
     r6(ctx)
     r7(ctx)
+    r8(ctx)
 
 
 def _holds_mutable(v: ast.AST) -> bool:
@@ -1217,3 +1312,326 @@ def r7(ctx):
     for fq, msgs in sorted(by_func.items()):
         f = funcs[fq]
         ctx.ob("R7", "ALIAS", f, "cache slot bound once", not msgs, "; ".join(sorted(set(msgs))[:3]) if msgs else "every cache slot that receives a proxy here is bound at most once on any path", f.node)
+
+
+# ============================================================================================== R8: cache hits are determined
+_LOOKUP_METHODS = ("get", "setdefault")
+
+
+class _Slice:
+    """Backward slice of a value inside one function: which parameters may it depend on?
+
+    Graph reachability over def-use edges (the definitions of a local that reach the use: copies, paired tuple targets,
+    loop targets, with-targets, augmented assignments), over in-place modifications of the object a local names (item
+    stores and mutator calls, through plain copies of the name, that can reach the use on the CFG) and - unless
+    `control` is off - over control dependence (the tests of the branch edges that dominate a defining / modifying
+    statement, the iterable of an enclosing `for`).  Nothing is evaluated: the result is the set of parameter names
+    reached; the receiver parameter is left out (what the configuration itself holds is covered by R1/R3)."""
+
+    def __init__(self, ctx, g, me: str):
+        self.ctx, self.g, self.me = ctx, g, me
+        self.fv = FuncView.of(g.node)
+        a = g.node.args
+        self.ps = (set(params(g.node)) | {x.arg for x in (a.vararg, a.kwarg) if x is not None}) - {me}
+
+    def of(self, e: Optional[ast.AST], control: bool = True) -> Set[str]:
+        return {x for x in self._reach(e, control) if isinstance(x, str)}
+
+    def state_read(self, e: Optional[ast.AST], control: bool = False) -> Set[str]:
+        """The attributes of the receiver the value is computed from."""
+        return {x[1] for x in self._reach(e, control) if isinstance(x, tuple)}
+
+    def _reach(self, e: Optional[ast.AST], control: bool) -> set:
+        out: set = set()
+        if e is not None:
+            self._expr(e, control, out, set())
+        return out
+
+    def _expr(self, e: ast.AST, control: bool, out: set, seen: set):
+        for n in ast.walk(e):
+            if isinstance(n, ast.Name) and isinstance(n.ctx, ast.Load) and n.id != self.me and id(n) in self.fv.parent:
+                self._name(n, control, out, seen)
+            elif isinstance(n, ast.Attribute) and isinstance(n.value, ast.Name) and n.value.id == self.me:
+                out.add(("attr", n.attr))
+
+    def _name(self, n: ast.Name, control: bool, out: Set[str], seen: set):
+        for st, v in reaching_defs(self.ctx, self.g, n.id, n):
+            if st is self.g.node:
+                if n.id in self.ps:
+                    out.add(n.id)
+                continue
+            if ("def", id(st), n.id) in seen:
+                continue
+            seen.add(("def", id(st), n.id))
+            if v is not None:
+                self._expr(v, control, out, seen)
+            elif isinstance(st, (ast.For, ast.AsyncFor)):
+                self._expr(st.iter, control, out, seen)
+            elif isinstance(st, (ast.With, ast.AsyncWith)):
+                for it in st.items:
+                    self._expr(it.context_expr, control, out, seen)
+            elif isinstance(st, ast.Assign):
+                self._expr(st.value, control, out, seen)
+            elif isinstance(st, ast.AugAssign):
+                self._expr(st.value, control, out, seen)
+                for x in ast.walk(st.target):  # ... and the value the name had before
+                    if isinstance(x, ast.Name) and x.id == n.id:
+                        self._name(x, control, out, seen)
+            if control:
+                self._control(st, out, seen)
+        if assignments_to(self.g.node, n.id):
+            self._modifications(n, control, out, seen)
+
+    def _modifications(self, n: ast.Name, control: bool, out: Set[str], seen: set):
+        cfg = self.ctx.cfg(self.g)
+        ust = self.fv.stmt_of(n)
+        holders = _same_object_names(self.g, {n.id})
+        for m in body_walk(self.g.node):
+            hit = False
+            if isinstance(m, ast.Call) and isinstance(m.func, ast.Attribute) and m.func.attr in MUTATORS:
+                r = strip_cast(m.func.value)
+                hit = isinstance(r, ast.Name) and r.id in holders
+            elif isinstance(m, (ast.Assign, ast.AugAssign, ast.AnnAssign, ast.Delete)):
+                tgts = m.targets if isinstance(m, (ast.Assign, ast.Delete)) else [m.target]
+                for t, _v in [p for t0 in tgts for p in _target_pairs(t0, None)]:
+                    b = strip_cast(t.value) if isinstance(t, ast.Subscript) else None
+                    hit = hit or (isinstance(b, ast.Name) and b.id in holders)
+            if not hit or ("mut", id(m)) in seen:
+                continue
+            mst = self.fv.stmt_of(m)
+            if mst is None or ust is None or not (cfg.has(mst) and cfg.has(ust)):
+                continue
+            if not (mst is ust or cfg.reaches(cfg.node(mst), cfg.node(ust))):
+                continue
+            seen.add(("mut", id(m)))
+            self._expr(m, control, out, seen)
+            if control:
+                self._control(mst, out, seen)
+
+    def _control(self, st: ast.AST, out: Set[str], seen: set):
+        from csverif.q import dominating_conditions
+
+        s = st if isinstance(st, ast.stmt) else self.fv.stmt_of(st)
+        if s is None or ("ctl", id(s)) in seen:
+            return
+        seen.add(("ctl", id(s)))
+        for _t, _pol, test in dominating_conditions(self.ctx, self.g, s):
+            if id(test) in self.fv.parent:  # (the mirrored copies are not nodes of the function)
+                self._expr(test, True, out, seen)
+        for anc in self.fv.ancestors(s):
+            if isinstance(anc, (ast.For, ast.AsyncFor)):
+                self._expr(anc.iter, True, out, seen)
+
+    def guards(self, stmts, p: str, inner: Optional[ast.AST] = None, cache_attr: Optional[str] = None) -> Set[tuple]:
+        """The conditions on the way to `stmts` (branch edges that dominate them; conditional expressions / short circuits
+        around `inner` inside its statement) whose operands are computed from parameter p: (text, outcome, definitions
+        of the names in it that reach the test).  Tests that look at the cache itself (`key in table`, `entry is None`:
+        the hit / miss decision) are not conditions on p and are left out."""
+        from csverif.q import dominating_conditions
+
+        found: List[Tuple[ast.AST, bool]] = []
+        for st in stmts:
+            if st is not None:
+                found.extend((test, pol) for _t, pol, test in dominating_conditions(self.ctx, self.g, st) if id(test) in self.fv.parent)
+        child = inner
+        while child is not None and not isinstance(child, ast.stmt):
+            par = self.fv.parent.get(id(child))
+            if isinstance(par, ast.IfExp) and child is not par.test:
+                found.append((par.test, child is par.body))
+            elif isinstance(par, ast.BoolOp) and par.values and child is not par.values[0]:
+                i = next((k for k, x in enumerate(par.values) if x is child), 0)
+                found.extend((x, isinstance(par.op, ast.And)) for x in par.values[:i])
+            child = par
+        out: Set[tuple] = set()
+        for test, pol in found:
+            while isinstance(test, ast.UnaryOp) and isinstance(test.op, ast.Not):
+                test, pol = test.operand, not pol
+            if p not in self.of(test, control=False) or (cache_attr is not None and cache_attr in self.state_read(test)):
+                continue
+            defs = set()
+            for x in ast.walk(test):
+                if isinstance(x, ast.Name) and id(x) in self.fv.parent:
+                    defs |= {(x.id, id(d)) for d, _v in reaching_defs(self.ctx, self.g, x.id, x)}
+            out.add((src(test), pol, tuple(sorted(defs))))
+        return out
+
+
+class _Access:
+    """One access of configuration state that works as a cache: `form` "item" (an entry of a table held by attribute
+    `attr`, under `key`) or "slot" (the attribute itself); a store puts `value` there, a hit is a `return` whose value
+    may come from there."""
+
+    def __init__(self, form, attr, key, value, node, stmt, ret=None):
+        self.form, self.attr, self.key, self.value, self.node, self.stmt, self.ret = form, attr, key, value, node, stmt, ret
+
+
+def _tables_of(ctx, co: _ConfigObjects, g, e: ast.AST, depth: int = 0) -> Set[str]:
+    """Attributes A such that e may denote the object held by `self.A` (directly or through a local bound to it)."""
+    e = strip_cast(e)
+    if isinstance(e, ast.Attribute) and co.is_self(g, e.value):
+        return set() if ctx.rs.property_of(co.cls_fq, e.attr) is not None else {e.attr}
+    out: Set[str] = set()
+    if isinstance(e, ast.Name) and depth < 4:
+        for st, v in reaching_defs(ctx, g, e.id, e):
+            if st is not g.node and v is not None:
+                for a in _alts(v):
+                    out |= _tables_of(ctx, co, g, a, depth + 1)
+    return out
+
+
+def _value_origins(ctx, g, e: ast.AST, seen: set, depth: int = 0) -> List[ast.AST]:
+    """The expressions a value may come from, looking through locals (reaching definitions) and conditional forms."""
+    out: List[ast.AST] = []
+    for a in _alts(e):
+        if isinstance(a, ast.Name) and depth < 8:
+            for st, v in reaching_defs(ctx, g, a.id, a):
+                if st is not g.node and v is not None and id(v) not in seen:
+                    seen.add(id(v))
+                    out.extend(_value_origins(ctx, g, v, seen, depth + 1))
+        else:
+            out.append(a)
+    return out
+
+
+def _cache_accesses(ctx, co: _ConfigObjects, g, hits: bool = True) -> Tuple[List[_Access], List[_Access]]:
+    """(stores, hits) of function g on its receiver's state."""
+    want_hits = hits
+    fv = FuncView.of(g.node)
+    stores: List[_Access] = []
+    hits: List[_Access] = []
+    for n in body_walk(g.node):
+        if isinstance(n, (ast.Assign, ast.AnnAssign, ast.AugAssign)):
+            if isinstance(n, ast.AnnAssign) and n.value is None:
+                continue
+            tgts = n.targets if isinstance(n, ast.Assign) else [n.target]
+            for t, v in [p for t0 in tgts for p in _target_pairs(t0, n.value if not isinstance(n, ast.AugAssign) else None)]:
+                v = v if v is not None else n.value
+                if isinstance(t, ast.Subscript) and not isinstance(t.slice, ast.Slice):
+                    for a in sorted(_tables_of(ctx, co, g, t.value)):
+                        stores.append(_Access("item", a, t.slice, v, n, n))
+                elif isinstance(t, ast.Attribute) and co.is_self(g, t.value) and ctx.rs.property_of(co.cls_fq, t.attr) is None:
+                    stores.append(_Access("slot", t.attr, None, v, n, n))
+        elif isinstance(n, ast.Call) and isinstance(n.func, ast.Attribute) and n.func.attr in MUTATORS:
+            for a in sorted(_tables_of(ctx, co, g, n.func.value)):
+                if n.func.attr == "setdefault" and len(n.args) == 2 and not n.keywords:
+                    stores.append(_Access("item", a, n.args[0], n.args[1], n, fv.stmt_of(n)))
+                elif n.func.attr not in ("pop", "popitem", "clear", "discard", "remove"):
+                    stores.append(_Access("item", a, None, n, n, fv.stmt_of(n)))  # update(...) & co: the key is not located
+    for r in returns_of(g) if want_hits else ():
+        if r.value is None:
+            continue
+        for o in _value_origins(ctx, g, r.value, set()):
+            if isinstance(o, ast.Call) and isinstance(o.func, ast.Attribute) and o.func.attr in _LOOKUP_METHODS and o.args:
+                for a in sorted(_tables_of(ctx, co, g, o.func.value)):
+                    hits.append(_Access("item", a, o.args[0], None, o, fv.stmt_of(o), r))
+            elif isinstance(o, ast.Subscript) and not isinstance(o.slice, ast.Slice):
+                for a in sorted(_tables_of(ctx, co, g, o.value)):
+                    hits.append(_Access("item", a, o.slice, None, o, fv.stmt_of(o), r))
+            elif isinstance(o, ast.Attribute):
+                for a in sorted(_tables_of(ctx, co, g, o)):
+                    hits.append(_Access("slot", a, None, None, o, fv.stmt_of(o), r))
+    return stores, hits
+
+
+def _same_constant(vals) -> Optional[bool]:
+    """Do all (function, expression, env) bindings denote one constant?  None when one of them is not a constant."""
+    got = []
+    for _cf, ce, _env in vals:
+        try:
+            got.append(repr(const_eval(ce)))
+        except (NotConst, KeyError, TypeError, ValueError):
+            return None
+    return len(set(got)) == 1
+
+
+def r8(ctx):
+    """A cache hit is determined by the inputs of the cached value.  Where a method of the configuration keeps a result in
+    the configuration (an entry of a table held by an attribute, or an attribute slot) and answers later calls from
+    there, every parameter the stored value depends on must either take part in the key - of the store and of the
+    look-up - or the look-up must be conditioned on it; otherwise a call is answered with the result computed for
+    other arguments, i.e. what an operation returns depends on which operations ran before."""
+    from csverif.normalise import baseline
+
+    co = _config(ctx)
+    text = "cache hit determined by the inputs of the cached value"
+    known = set((baseline().get(co.mod) or {}).get("functions", []))
+    memoising = 0
+    filled: Dict[str, List[tuple]] = {}   # table attribute -> (function, store) where an entry is stored after construction
+    read: Dict[str, List[tuple]] = {}
+    judged_attrs: Set[str] = set()
+    for g in ctx.repo.methods(CONFIG_CLS):
+        ps = params(g.node)
+        if not ps or not co.is_self(g, ast.Name(id=ps[0], ctx=ast.Load())) or g.qualname == f"{co.cname}.__init__" or co._inlined_away(g):
+            continue
+        stores, hits = _cache_accesses(ctx, co, g)
+        for s in stores:
+            if s.form == "item":
+                filled.setdefault(s.attr, []).append((g, s))
+        for h in hits:
+            if h.form == "item":
+                read.setdefault(h.attr, []).append((g, h))
+        groups = sorted({(s.form, s.attr) for s in stores} & {(h.form, h.attr) for h in hits})
+        if not groups:
+            continue
+        memoising += 1
+        sl = _Slice(ctx, g, ps[0])
+        bad: List[str] = []
+        unk: List[str] = []
+        good: List[str] = []
+        for form, attr in groups:
+            judged_attrs.add(attr)
+            S = [s for s in stores if (s.form, s.attr) == (form, attr)]
+            H = [h for h in hits if (h.form, h.attr) == (form, attr)]
+            what = f"the table held by attribute {attr!r}" if form == "item" else f"the slot {attr!r}"
+            if any(s.key is None for s in S) and form == "item":
+                unk.append(f"{what} is filled by `{src(next(s.node for s in S if s.key is None))[:50]}`: the key of the entry cannot be located")
+                continue
+            deps: Dict[str, _Access] = {}
+            for s in S:
+                for p in sorted(sl.of(s.value)):
+                    deps.setdefault(p, s)
+            if not deps:
+                good.append(f"the value kept in {what} depends on no input besides the configuration itself")
+                continue
+            for p, s0 in sorted(deps.items()):
+                if form == "item" and all(p in sl.of(s.key) for s in S) and all(p in sl.of(h.key) for h in H):
+                    good.append(f"parameter `{p}` takes part in the key of {what}")
+                    continue
+                hs = [sl.guards([h.stmt, h.ret], p, h.node, attr) for h in H]
+                ss = [sl.guards([s.stmt], p, None, attr) for s in S]
+                if all(hs):
+                    if all(a == b for a in hs for b in ss):
+                        good.append(f"parameter `{p}` is not part of the key of {what}, but the entry is stored and looked up under the same conditions on it "
+                                    f"({', '.join(sorted(('' if pol else 'not ') + t for t, pol, _d in hs[0]))})")
+                    else:
+                        unk.append(f"the value stored in {what} depends on parameter `{p}`, which is not part of the key; the look-up and the store are "
+                                   f"conditioned on it in different ways, which the rule cannot relate")
+                    continue
+                if g.qualname not in known and co.sites(g):  # a new helper: only the package's own calls matter
+                    vals = co._param_values(g, p, {})
+                    same = _same_constant(vals) if vals else None
+                    if same:
+                        good.append(f"parameter `{p}` is the same constant at every call of {g.qualname}")
+                        continue
+                    if same is None:
+                        unk.append(f"the value stored in {what} depends on parameter `{p}` of the helper {g.qualname}, which is neither part of the key nor a constant at its calls")
+                        continue
+                h0 = next(h for h, sig in zip(H, hs) if not sig)
+                keytxt = f"the key `{src(h0.key)[:40]}`" if h0.key is not None else "no key"
+                bad.append(f"`{src(s0.stmt)[:60]}` keeps a value that depends on parameter `{p}`, but `{src(h0.ret)[:40]}` answers from {what} under {keytxt}, "
+                           f"which does not involve `{p}`, and no condition on the way to that look-up does either: a call is answered with the result computed "
+                           f"for a different `{p}`, so the result depends on which calls were made before")
+        if bad:
+            ctx.ob("R8", "AGREE", g, text, False, "; ".join(bad[:3]), g.node)
+        elif unk:
+            ctx.undecided("R8", "AGREE", g, text, "; ".join(unk[:3]), g.node)
+        else:
+            ctx.ob("R8", "AGREE", g, text, True, "; ".join(sorted(set(good))[:4]), g.node, nontrivial=any("parameter" in x for x in good))
+    # a keyed table that one method fills and another one answers from: the two keys are not related across functions
+    for attr in sorted(set(filled) & set(read) - judged_attrs):
+        g, s = filled[attr][0]
+        h_g, h = read[attr][0]
+        memoising += 1
+        ctx.undecided("R8", "AGREE", g, text, f"the table held by attribute {attr!r} is filled here (`{src(s.stmt)[:50]}`) and read in {h_g.qualname} "
+                      f"(`{src(h.ret)[:40]}`): the key of the look-up is not related to the arguments of the fill across functions", g.node)
+    ctx.rep.counts["memoising_methods"] = memoising
